@@ -14,8 +14,11 @@ def generate(ctx, module_e, module_sim, sim_num, sim_depth, e_sample=None, sim_w
     stats = {"states": 0, "transitions": 0, "tlc_runs": []}
     scns = []
     rnd = random.Random(ctx.seed)
+    def _mc(m):
+        return (m, None) if isinstance(m, str) else m
     if module_e:
-        r = tlc.run(module_e, workers=ctx.cores, timeout=e_timeout, coverage=bool(required_actions))
+        module_e, cfg_e = _mc(module_e)
+        r = tlc.run(module_e, cfg=cfg_e, workers=ctx.cores, timeout=e_timeout, coverage=bool(required_actions))
         if r.violation:
             return None, {"tlc_violation": r.violation, "module": module_e}
         if required_actions:
@@ -24,7 +27,7 @@ def generate(ctx, module_e, module_sim, sim_num, sim_depth, e_sample=None, sim_w
                 raise tlc.TLCError("vacuity: actions never taken in %s: %s" % (module_e, missing))
         stats["states"] += r.distinct
         stats["transitions"] += r.states
-        stats["tlc_runs"].append({"module": module_e, "mode": "exhaustive", **r.summary()})
+        stats["tlc_runs"].append({"module": cfg_e or module_e, "mode": "exhaustive", **r.summary()})
         stats["exhaustive_scenarios"] = len(r.printed)
         es = r.printed
         if e_sample is not None and len(es) > e_sample:
@@ -39,13 +42,14 @@ def generate(ctx, module_e, module_sim, sim_num, sim_depth, e_sample=None, sim_w
                 (module_e, r.distinct, len(r.printed), len(es), r.wall_s))
     if module_sim and sim_num > 0:
         per = max(1, sim_num // sim_workers)
-        r = tlc.run(module_sim, mode="sim", workers=sim_workers, num=per, depth=sim_depth,
+        module_sim, cfg_sim = _mc(module_sim)
+        r = tlc.run(module_sim, cfg=cfg_sim, mode="sim", workers=sim_workers, num=per, depth=sim_depth,
                     seed=ctx.seed + 1, timeout=sim_timeout)
         if r.violation:
             return None, {"tlc_violation": r.violation, "module": module_sim}
         stats["states"] += r.states      # simulation: states visited along behaviours
         stats["transitions"] += r.states
-        stats["tlc_runs"].append({"module": module_sim, "mode": "simulate", "behaviours": r.traces, **r.summary()})
+        stats["tlc_runs"].append({"module": cfg_sim or module_sim, "mode": "simulate", "behaviours": r.traces, **r.summary()})
         for s in r.printed:
             s["_src"] = "S"
         scns += r.printed
